@@ -159,3 +159,14 @@ PROPS['C16'] = dict(
     ],
     assumptions=["the theorem's domain SafeProg: names starting with a lower-case letter or one of _ * . ^ < >, selectors that are the wildcard, such a name, or a canonical decimal below 2^32, numbers below 2^32, batch lines last; everything else documented is covered by the oracle and the known findings"],
 )
+
+PROPS['C12'] = dict(
+    prop_modules=['Vise.Props.C12'], lean_targets=['Vise.Props.C12'], suites=['crash'],
+    trusted=[
+        "a crash is the death of the process at a system-call boundary: each file operation of the save either took effect or did not (a short write is one more, shorter write); the kernel's own atomicity of rename(2) and of directory updates, and durability across power loss (the fix also fsyncs), are assumed, not modelled",
+        "strace (ptrace) kill injection on entry to the k-th call of the child's main thread (the child locks its goroutine to the main thread, GOMAXPROCS=1); the abstraction of traced calls to operation letters is done by the harness and re-checked by comparing the killed run's trace prefix with the dry run",
+        "records are compared decoded (the CBOR bytes of one state differ between runs because of Go map order); CBOR itself is a parameter `dec` of the model",
+        "the engine clause uses the real engine in a fresh process for the next request and compares its output with reference runs from the old, the new and an empty store",
+    ],
+    assumptions=["the temporary file name is fresh (ioutil.TempFile) and differs from every record name"],
+)
